@@ -25,6 +25,8 @@ pub const FAMILIES: &[(&str, u64)] = &[
     ("conf-hints", 3),
     ("conf-soft", 2),
     ("lazy-soft", 2),
+    ("union-conf", 1),
+    ("union-conf-hints", 2),
     ("medium-soft", 2),
     ("lazy-hints", 1),
     ("deep", 2),
